@@ -9,6 +9,7 @@ fn usage() -> ! {
 
 fn dispatch_check(id: &str, tier: Tier, seed: u64) -> Report {
     match id {
+        "C14" => check::<props::c14::C14>(tier, seed),
         "C17" => check::<props::c17::C17>(tier, seed),
         _ => { eprintln!("unknown property {id}"); Report { exit: 2 } }
     }
@@ -16,6 +17,7 @@ fn dispatch_check(id: &str, tier: Tier, seed: u64) -> Report {
 
 fn dispatch_replay(id: &str, path: &PathBuf, tier: Tier) -> Report {
     match id {
+        "C14" => replay::<props::c14::C14>(path, tier),
         "C17" => replay::<props::c17::C17>(path, tier),
         _ => { eprintln!("unknown property {id}"); Report { exit: 2 } }
     }
